@@ -212,7 +212,8 @@ def gen_ops(rng, exact: bool, depth: int, budget: list[int], declared: list[str]
             break
         budget[0] -= 1
         k = rng.choice(['write', 'write', 'move', 'origin', 'init', 'dwell', 'dwell', 'comment', 'home', 'repeat', 'repeat', 'for', 'rot',
-                        'dvar', 'load', 'farcall', 'buffered', 'remove', 'farcall_list', 'raise' if rng.random() < p_raise else 'dwell'])
+                        'dvar', 'load', 'farcall', 'buffered', 'remove', 'farcall_list', 'raise' if rng.random() < p_raise else 'dwell',
+                        'attempt' if rng.random() < 0.5 else 'load', 'load_bad' if rng.random() < 0.3 else 'farcall'])
         if k == 'write':
             if rng.random() < 0.25:
                 kind, rows = builder_matrix(rng)
@@ -260,6 +261,15 @@ def gen_ops(rng, exact: bool, depth: int, budget: list[int], declared: list[str]
             ops.append({'k': k, 'p': rng.choice(NAMES), 'task': rng.choice([1, 2, 3])})
         elif k == 'farcall':
             ops.append({'k': 'farcall', 'p': rng.choice(NAMES)})
+        elif k == 'load_bad':
+            # a load the compiler must refuse without recording anything: the task id is not an integer
+            ops.append({'k': 'load_bad', 'path': rng.choice(NAMES[:6]), 'task': rng.choice(['T2', 'nan'])})
+        elif k == 'attempt':
+            # the user's own try / except around some operations: an error inside is swallowed and the program goes on
+            body = gen_ops(rng, exact, max(depth - 1, 0), budget, declared, max(p_raise, 0.25), True)
+            if rng.random() < 0.5:
+                body.append({'k': rng.choice(['raise', 'load_bad', 'farcall']), 'path': rng.choice(NAMES[:6]), 'p': rng.choice(NAMES), 'task': 'T2'})
+            ops.append({'k': 'attempt', 'body': body})
         elif k == 'farcall_list':
             items = [[rng.choice(NAMES[:6] + (['bad.txt'] if rng.random() < 0.2 else [])), rng.choice([1, 2, 3])] for _ in range(rng.randint(0, 3))]
             ops.append({'k': 'farcall_list', 'items': items})
@@ -307,6 +317,13 @@ def run_ops(G, ops) -> None:
             G.farcall_list([it[0] for it in op['items']], [it[1] for it in op['items']])
         elif k == 'raise':
             raise UserCrash()
+        elif k == 'load_bad':
+            G.load_program(op['path'], float('nan') if op['task'] == 'nan' else op['task'])
+        elif k == 'attempt':
+            try:
+                run_ops(G, op['body'])
+            except (UserCrash, ValueError, FileNotFoundError, TypeError):
+                pass
         else:
             raise AssertionError(k)
 
